@@ -16,6 +16,7 @@ Definition node_eqb (a b : node) : bool :=
   match a, b with
   | Dir, Dir => true
   | File x, File y => Nat.eqb x y
+  | Link a, Link b => path_eqb a b
   | _, _ => false
   end.
 
@@ -160,7 +161,7 @@ Definition show_op (o : op) : string :=
   end%string.
 
 Definition show_node (n : option node) : string :=
-  match n with None => "-" | Some Dir => "dir" | Some (File _) => "file" end%string.
+  match n with None => "-" | Some Dir => "dir" | Some (File _) => "file" | Some (Link _) => "link" end%string.
 
 Definition explain (k : case) : list string :=
   let c := model_cfg k in
